@@ -210,6 +210,86 @@ def run_tree(history, tree, frac=False, recalc_history=None):
         reset_state()
 
 
+def observe_use(tree, events_so_far, frac=False):
+    """build one tree under whatever definitions are in force NOW (no reset) and observe it"""
+    nodes = []
+    with warnings.catch_warnings(record=True) as w:
+        warnings.simplefilter("always")
+        try:
+            r = build(tree, nodes)
+            text = r.unit if hasattr(r, "_unit") else ""
+        except RecursionError:
+            return {"exc": "rec", "exact": True}
+    if not hasattr(r, "_unit"):
+        raise CaseInvalid("the tree is a plain number")
+    warned = any(MISMATCH_TEXT in str(x.message) for x in w)
+    node_items = [to_items(n._unit) for n in nodes]
+    defs_items = [x for ev in events_so_far if ev[0] == "define" for x in ev[2]]
+    return {"exc": None, "unit": to_items(r._unit), "warned": warned, "text": text,
+            "exact": all(small_dyadic(it) for it in node_items), "nodes": node_items, "defs_items": defs_items}
+
+
+def run_session(steps):
+    """steps: ["define", name, items] | ["clear"] | ["use", tree], executed in order in ONE interpreter state (no reset
+    in between: what an earlier use left behind in the library is still there at a later one).
+    Returns the list of observations of the use steps, in order."""
+    reset_state()
+    out, events = [], []
+    try:
+        for st in steps:
+            if st[0] == "use":
+                out.append(observe_use(st[1], events))
+            else:
+                apply_history([st])
+                events.append(st)
+        return out
+    finally:
+        reset_state()
+
+
+def session_events_before(steps):
+    """for every use step: the define/clear events that precede it"""
+    events, out = [], []
+    for st in steps:
+        if st[0] == "use":
+            out.append(list(events))
+        else:
+            events.append(st)
+    return out
+
+
+def oracle_session(steps):
+    """every use of a session must agree with dimensional analysis under the definitions in force at that moment
+    (latest definition of each name since the latest clear), whatever was defined, used or redefined before"""
+    try:
+        obs = run_session(steps)
+    except CaseInvalid:
+        return None
+    uses = [st for st in steps if st[0] == "use"]
+    for i, (st, ob, evs) in enumerate(zip(uses, obs, session_events_before(steps))):
+        defs = defs_of(evs)
+        try:
+            exp = o_dim(st[1], defs)
+        except (OutOfDomain, Cyclic):
+            continue
+        why = judge(ob, exp, defs, st[1])
+        if why:
+            return "use #{} (after {} define/clear calls): {}".format(i + 1, len(evs), why)
+    return None
+
+
+def shrink_session(steps):
+    """delta-debug the steps, then shrink the trees of the remaining uses"""
+    def fails(s):
+        return oracle_session(s) is not None
+    steps = core.shrink_list(steps, fails)
+    for i, st in enumerate(steps):
+        if st[0] == "use":
+            t = shrink_tree(st[1], lambda t, i=i: fails(steps[:i] + [["use", t]] + steps[i + 1:]))
+            steps = steps[:i] + [["use", t]] + steps[i + 1:]
+    return core.shrink_list(steps, fails)
+
+
 def printable(obs):
     """exponents are printed through Fraction(x).limit_denominator(10): exact when the stored exponents are integers or
     halves and the definitions use integers or halves of magnitude <= 3 (then a packed power has a denominator <= 6)"""
@@ -318,6 +398,16 @@ class Enc:
         if o.get("exc"):
             return "None"
         return "(Some ({}, {}))".format(self.umap(o["unit"]), coq_bool(o["warned"]))
+
+    def session(self, steps, obs, showns):
+        terms, i = [], 0
+        for st in steps:
+            if st[0] == "use":
+                terms.append(self.I("(SUse {} {} {})".format(self.tree(st[1]), self.obs(obs[i]), self.opt_umap(showns[i]))))
+                i += 1
+            else:
+                terms.append("(SEv {})".format(self.event(st)))
+        return "[" + "; ".join(terms) + "]"
 
     def opt_umap(self, items):
         return "None" if items is None else "(Some {})".format(self.umap(items))
@@ -606,6 +696,144 @@ def named_leafgen(history):
     return gen
 
 
+# ---- sessions: define / clear / use interleaved ---------------------------------------------------
+CHAINS = [["N", "J", "W"], ["N", "J"], ["N", "Pa"], ["Hz"], ["N", "J", "W", "Pa"]]
+VARIANTS = {
+    "N": [[["kg", 1, 1], ["m", 1, 1], ["s", -2, 1]], [["kg", 1, 1], ["m", 1, 1], ["s", -1, 1]], [["kg", 1, 1], ["m", 1, 1]],
+          [["kg", 1, 1], ["m", 2, 1], ["s", -2, 1]]],
+    "J": [[["N", 1, 1], ["m", 1, 1]], [["N", 1, 1], ["m", 2, 1]], [["kg", 1, 1], ["m", 2, 1], ["s", -2, 1]]],
+    "W": [[["J", 1, 1], ["s", -1, 1]], [["N", 1, 1], ["m", 1, 1], ["s", -1, 1]], [["J", 1, 1], ["s", -2, 1]]],
+    "Pa": [[["N", 1, 1], ["m", -2, 1]], [["N", 1, 1], ["m", -1, 1]]],
+    "Hz": [[["s", -1, 1]], [["s", -2, 1]]],
+}
+
+
+def use_trees(rng, events, focus=None, n=None):
+    """a few use steps under the definitions in force after [events]; [focus] = names whose leaves are preferred"""
+    lg = named_leafgen(events)
+    defs = defs_of(events)
+    out = []
+    for _ in range(n or rng.randrange(1, 4)):
+        if focus and rng.random() < 0.75:
+            name = rng.choice(focus)
+            p = rng.choice([1, 1, 1, 2, -1])
+            a = leaf([item(name, p)])
+            k = rng.random()
+            if k < 0.35:
+                b = leaf(lg(rng))
+                t = ["bin", rng.choice(["mul", "div"]), a, b] if rng.random() < 0.5 else ["bin", rng.choice(["mul", "div"]), b, a]
+            elif k < 0.7:
+                # the same dimension written in fully expanded form (under the CURRENT definitions): must add without mismatch
+                try:
+                    ex = o_expand([item(name, p)], defs)
+                    b = leaf(permuted(rng, [item(s_, v) for s_, v in sorted(ex.items())]) or [item("m", 1)])
+                except Cyclic:
+                    b = leaf(lg(rng))
+                t = ["bin", rng.choice(["add", "sub"]), a, b] if rng.random() < 0.5 else ["bin", rng.choice(["add", "sub"]), b, a]
+            elif k < 0.85:
+                t = ["un", rng.choice(["neg", "sqrt"]), a]
+            else:
+                t = ["bin", "mul", ["bin", "pow", a, cst(rng.choice([2, -1, Fraction(1, 2)]))], leaf(lg(rng))]
+        else:
+            related = [lg(rng) for _ in range(2)]
+            t = rand_tree(rng, rng.choice([1, 1, 2, 3]), lg, p_const=0.1, p_other=0.0, related=related)
+        out.append(["use", t])
+    return out
+
+
+def gen_session(rng):
+    """define / clear / use steps; a good share redefines (or defines for the first time) a name on which an already
+    USED name is built, without a clear in between"""
+    steps, events = [], []
+
+    def ev(e):
+        steps.append(e)
+        events.append(e)
+
+    def uses(focus=None, n=None):
+        steps.extend(use_trees(rng, events, focus, n))
+
+    r = rng.random()
+    chain = rng.choice(CHAINS)
+    if r < 0.45:
+        # chain defined bottom-up, dependents used, then a lower name redefined, dependents used again
+        for n in chain:
+            ev(["define", n, [list(x) for x in rng.choice(VARIANTS[n])]])
+            if rng.random() < 0.3:
+                uses([n], 1)
+        deps = chain[1:] or chain
+        uses(deps)
+        for _ in range(rng.randrange(1, 3)):
+            k = rng.randrange(0, max(1, len(chain) - 1))
+            ev(["define", chain[k], [list(x) for x in rng.choice(VARIANTS[chain[k]])]])
+            uses(chain[k + 1:] or chain)
+    elif r < 0.65:
+        # dependents defined and used BEFORE what they are built on is defined
+        for n in reversed(chain):
+            ev(["define", n, [list(x) for x in VARIANTS[n][0]]])
+            uses([n], 1)
+        uses(chain)
+    elif r < 0.8:
+        # clear in the middle, then the chain again with other bodies
+        for n in chain:
+            ev(["define", n, [list(x) for x in rng.choice(VARIANTS[n])]])
+        uses(chain)
+        ev(["clear"])
+        uses(chain, 1)
+        for n in chain:
+            ev(["define", n, [list(x) for x in rng.choice(VARIANTS[n])]])
+            uses([n], 1)
+    else:
+        # random interleaving over an acyclic vocabulary (a name only mentions names earlier in ORDER)
+        order = ["X", "Y", "Z", "L"]
+        for _ in range(rng.randrange(4, 11)):
+            k = rng.random()
+            defined = list(defs_of(events))
+            if k < 0.45 or not defined:
+                i = rng.randrange(len(order))
+                avail = ["kg", "m", "s"] + order[:i]
+                body = [x for x in rand_umap(rng, avail, maxlen=3) if x[2] <= 2 and abs(Fraction(x[1], x[2])) <= 3] or [item("m", 1)]
+                if i and rng.random() < 0.7 and all(x[0] != order[i - 1] for x in body):
+                    body = [item(order[i - 1], rng.choice([1, 1, 2, -1]))] + body
+                ev(["define", order[i], body])
+            elif k < 0.52:
+                ev(["clear"])
+            else:
+                uses(defined)
+    return steps
+
+
+def session_templates():
+    """deterministic small scope: every chain x every (lower name, other body) redefinition after the dependents were used"""
+    out = []
+    for chain in CHAINS:
+        if len(chain) < 2:
+            continue
+        for k in range(len(chain) - 1):
+            for body in VARIANTS[chain[k]][1:]:
+                for first, second in ((body, VARIANTS[chain[k]][0]), (VARIANTS[chain[k]][0], body)):
+                    steps = []
+                    for n in chain:
+                        steps.append(["define", n, [list(x) for x in (first if n == chain[k] else VARIANTS[n][0])]])
+                    probes = []
+                    for d in chain[k + 1:]:
+                        probes.append(["use", ["bin", "mul", leaf([item(d, 1)]), leaf([item("m", 1)])]])
+                        probes.append(["use", ["bin", "div", leaf([item("s", 1)]), leaf([item(d, 2)])]])
+                    steps += probes
+                    steps.append(["define", chain[k], [list(x) for x in second]])
+                    steps += probes
+                    out.append(steps)
+        # dependents first
+        steps = []
+        for n in reversed(chain):
+            steps.append(["define", n, [list(x) for x in VARIANTS[n][0]]])
+            steps.append(["use", ["bin", "mul", leaf([item(n, 1)]), leaf([item("kg", 1)])]])
+        for n in chain:
+            steps.append(["use", ["bin", "div", leaf([item(n, 1)]), leaf([item("m", 1)])]])
+        out.append(steps)
+    return out
+
+
 # ---------------------------------------------------------------------------------------------
 # the independent oracle: dimensional analysis with Fraction dictionaries
 # ---------------------------------------------------------------------------------------------
@@ -700,6 +928,11 @@ def oracle_check(history, tree, frac=False):
         obs = run_tree(history, tree, frac)
     except CaseInvalid:
         return None
+    return judge(obs, exp, defs, tree, frac)
+
+
+def judge(obs, exp, defs, tree, frac=False):
+    """compare one observation of a tree with the expected outcome exp = o_dim(tree, defs)"""
     if obs.get("exc"):
         return "building the tree raised RecursionError although the definitions are acyclic"
     if not obs["exact"]:
